@@ -1220,3 +1220,8 @@ for _p in ("C06", "C19"):
     add(_p, "findings-lookup-iterates-locations-in-a-second-generator", FCX,
         [("            if any(\n                location.start.line <= line_number <= location.end.line\n                for location in result.locations\n            )\n            and result.finding is not None", "            for location in result.locations\n            if result.finding is not None\n            and location.start.line <= line_number <= location.end.line")],
         "fire", "R-FINDINGS-LOOKUP", "lookup-once-per-result")
+
+for _p in ("C03", "C10"):
+    add(_p, "merge-loop-carries-on-after-the-map-iterator-raised", CTXF,
+        [("        for file_context in results:\n", "        results = iter(results)\n        while True:\n            try:\n                file_context = next(results)\n            except StopIteration:\n                break\n            except OSError as err:\n                logger.exception(\"%s: %s\", codemod_id, err)\n                continue\n")],
+        "fire", "R-ITER-NO-RESUME", "next:results")
